@@ -248,6 +248,32 @@ TermEnumerated(t, r) == BytesLeq(RngStart(r), t) /\ BytesLeq(t, RngEnd(r))
 Matches(x, ranges) ==
   \E i \in 1..Len(ranges) : \E t \in IndexedTerms(x) : TermEnumerated(t, ranges[i])
 
+(* Cost of termRange.Enumerate.  `next = incrementBytes(next)' adds one to   *)
+(* the term read as a number in base BB = 256 (not base 2^G: the 8th bit of *)
+(* every byte takes part), until next > endTerm; the loop body runs          *)
+(* end - start + 1 times.  SubBytes is the base-BB subtraction with borrow. *)
+BB == 2 * 2^G
+IncBytes(t) ==                                    \* incrementBytes
+  LET nf == {j \in 1..Len(t) : t[j] # BB-1}
+  IN IF nf = {} THEN [n \in 1..Len(t) |-> 0]
+     ELSE LET j == MaxOf(nf)
+          IN [n \in 1..Len(t) |-> IF n = j THEN t[n] + 1 ELSE IF n > j THEN 0 ELSE t[n]]
+RECURSIVE SubBytes(_, _, _, _)
+SubBytes(a, b, i, borrow) ==                      \* a - b on positions 1..i
+  IF i = 0 THEN <<>>
+  ELSE IF a[i] >= b[i] + borrow
+       THEN SubBytes(a, b, i-1, 0) \o <<a[i] - b[i] - borrow>>
+       ELSE SubBytes(a, b, i-1, 1) \o <<a[i] + BB - b[i] - borrow>>
+(* iterations of the loop from start to end are at most limit (< BB^3)     *)
+EnumWithin(start, end, limit) ==
+  BytesLess(end, start) \/
+    LET n == Len(start)
+        d == SubBytes(end, start, n, 0)
+        low(i) == IF i < 1 THEN 0 ELSE d[i]
+    IN /\ \A i \in 1..(n-3) : d[i] = 0
+       /\ low(n-2) * BB * BB + low(n-1) * BB + low(n) + 1 <= limit
+RngEnumWithin(r, limit) == EnumWithin(RngStart(r), RngEnd(r), limit)
+
 -----------------------------------------------------------------------------
 (* The meaning: interval cover, decidable by interval arithmetic on digit  *)
 (* sequences at any width.                                                 *)
